@@ -46,9 +46,7 @@ Fixpoint pv_plain (v : pv) : bool :=
   match v with
   | PStr s => no_newline s
   | PArr l => forallb pv_plain l
-  | PDict d =>
-      (fix go (l : dict) : bool :=
-         match l with [] => true | (k, x) :: r => no_newline k && pv_plain x && go r end) d
+  | PDict d => forallb (fun kx => let '(k, x) := kx in no_newline k && pv_plain x) d
   | _ => true
   end.
 
@@ -130,6 +128,13 @@ Section Encoder.
     end.
   Definition text_kids (s : str) : list node := match s with [] => [] | _ => [Text s] end.
 
+  (** the children of a <dict>: key, value, key, value ... *)
+  Definition dict_nodes (f : pv -> node) : dict -> list node :=
+    fix go (d : dict) : list node :=
+    match d with
+    | [] => []
+    | (k, x) :: r => Elem n_key [] (text_kids (reindent k)) :: f x :: go r
+    end.
   Fixpoint pv_node (v : pv) : node :=
     match v with
     | PStr s => Elem n_string [] (text_kids (reindent s))
@@ -141,13 +146,7 @@ Section Encoder.
     | PArr [] => Empty n_array []
     | PArr l => Elem n_array [] (map pv_node l)
     | PDict [] => Empty n_dict []
-    | PDict d =>
-        Elem n_dict []
-          ((fix go (l : dict) : list node :=
-              match l with
-              | [] => []
-              | (k, x) :: r => Elem n_key [] (text_kids (reindent k)) :: pv_node x :: go r
-              end) d)
+    | PDict d => Elem n_dict [] (dict_nodes pv_node d)
     end.
 
   (** [dump_object_libs]: in the order anchors, guidelines, contours (+ points), components;
